@@ -242,11 +242,71 @@ Fixpoint add_new_bonds (pairs : list (nat * nat)) (have : list (nat * nat)) : li
       then add_new_bonds r have
       else (i, j) :: add_new_bonds r ((i, j) :: have)
   end.
-Definition pdb_read (recs : list pdbrec) : list dchain * list dbond :=
+(* ---- Topology.create_standard_bonds() on the topology just read: for every chain, every residue i whose
+   name is in the table (mdtraj/formats/pdb/data/residues.xml, regenerated into coq/Gen/TopoStdBonds.v) and
+   every (from, to) of its entry: "-X" means atom X of residue i-1 (when i > 0, otherwise the literal name,
+   which no atom has); the bond is added when both names exist (of several atoms with one name in a residue
+   the last wins: atomMap[atom.name] = atom).  Bonds are positions in creation order. *)
+Definition std_table := list (string * list (string * string)).
+
+Fixpoint assoc_str {V} (k : string) (m : list (string * V)) : option V :=
+  match m with [] => None | (k', v) :: r => if String.eqb k' k then Some v else assoc_str k r end.
+Fixpoint find_last_name (nm : string) (atoms : list (string * nat)) (acc : option nat) : option nat :=
+  match atoms with [] => acc | (n, p) :: r => find_last_name nm r (if String.eqb n nm then Some p else acc) end.
+
+(* residues of one chain with their atoms' names and positions *)
+Fixpoint number_res (rs : list dres) (start : nat) : list (string * list (string * nat)) * nat :=
+  match rs with
+  | [] => ([], start)
+  | r :: rest =>
+      let atoms := combine (map da_name (dr_atoms r)) (seq start (length (dr_atoms r))) in
+      let '(out, fin) := number_res rest (start + length (dr_atoms r)) in
+      ((dr_name r, atoms) :: out, fin)
+  end.
+
+Definition resolve_end (i : nat) (nm : string) : nat * string :=
+  match nm with
+  | String "-" tl => if 0 <? i then (i - 1, tl) else (i, nm)
+  | _ => (i, nm)
+  end.
+
+Definition std_bonds_chain (tbl : std_table) (rs : list (string * list (string * nat))) : list (nat * nat) :=
+  concat (map (fun i =>
+    match nth_error rs i with
+    | Some (name, _) =>
+        match assoc_str name tbl with
+        | Some bonds =>
+            somes (map (fun ft =>
+              let '(fi, fa) := resolve_end i (fst ft) in
+              let '(ti, ta) := resolve_end i (snd ft) in
+              match nth_error rs fi, nth_error rs ti with
+              | Some (_, fas), Some (_, tas) =>
+                  match find_last_name fa fas None, find_last_name ta tas None with
+                  | Some p, Some q => Some (p, q)
+                  | _, _ => None
+                  end
+              | _, _ => None
+              end) bonds)
+        | None => []
+        end
+    | None => []
+    end) (seq 0 (length rs))).
+
+Fixpoint std_bonds_chains (tbl : std_table) (cs : list dchain) (start : nat) : list (nat * nat) :=
+  match cs with
+  | [] => []
+  | c :: rest => let '(rs, fin) := number_res (dc_res c) start in
+                 std_bonds_chain tbl rs ++ std_bonds_chains tbl rest fin
+  end.
+
+Definition pdb_read (tbl : std_table) (recs : list pdbrec) : list dchain * list dbond :=
   let atoms := pdb_atoms_of recs false in
   let serials := map pa_serial atoms in
+  let chains := pdb_read_chains atoms in
+  let std := std_bonds_chains tbl chains 0 in
   let pairs := somes (map (fun p => match last_pos serials (fst p) 0 None, last_pos serials (snd p) 0 None with
                                     | Some i, Some j => Some (i, j)
                                     | _, _ => None
                                     end) (conect_pairs recs)) in
-  (pdb_read_chains atoms, map (fun p => (fst p, snd p, None, None)) (add_new_bonds pairs [])).
+  (* "Only add bonds that don't already exist" (either orientation) *)
+  (chains, map (fun p => (fst p, snd p, None, None)) (std ++ add_new_bonds pairs std)).
